@@ -245,7 +245,15 @@ fn judge_place(rec: &mut Recorder, c: &place::PlaceCase, ex: Exec, _hello: &Valu
     if o.mprotect_fault_hit {
         rec.class(&format!("an-mprotect-of-the-installation-failed/{}", o.status));
     }
+    if let Some((want, got)) = o.sibling_after {
+        if want != got {
+            return rec.fail(&format!("{prop}/native-place/sibling-faked-earlier-no-longer-reaches-its-fake"), format!("a function in the same page as the target was faked first (its fake yields {want}); after the installation under test a call of it returned {got}; case {c:?}"));
+        }
+    }
     if o.sibling_faked {
+        if o.target_addr & 0xFFF == 0 {
+            rec.class("sibling-in-the-same-page-faked-first/page-aligned-target");
+        }
         rec.class(if o.straddles { "sibling-in-the-same-page-faked-first/straddle" } else { "sibling-in-the-same-page-faked-first" });
     }
     if o.priors > 0 {
